@@ -39,8 +39,8 @@ theorem Post.refl (W : Nat → Nat → Prop) (asm : Asm) : Post W asm asm := fun
 theorem Post.trans {W : Nat → Nat → Prop} {a b c : Asm} (h1 : Post W a b) (h2 : Post W b c) : Post W a c :=
   fun p hp => (h2 p hp).elim (h1 p) Or.inr
 
-theorem Inv.cons {W : Nat → Nat → Prop} {μ : Nat → Nat} {asm : Asm} {a b : Nat} {ctx : Stk}
-    (h : Inv W μ asm (μ a + μ b + 1)) : Inv W μ ((a, b, ctx) :: asm) (μ a + μ b) := by
+theorem Inv.cons {W : Nat → Nat → Prop} {μ : Nat → Nat} {asm : Asm} {k : AKey}
+    (h : Inv W μ asm (μ k.1 + μ k.2.1 + 1)) : Inv W μ (k :: asm) (μ k.1 + μ k.2.1) := by
   intro p hp
   rcases List.mem_cons.mp hp with rfl | hp
   · exact Or.inr (Nat.le_refl _)
